@@ -27,6 +27,14 @@ abbrev initHeap (linkFn : LinkFn) (inputs : List Input) : List Live :=
 abbrev initErr (linkFn : LinkFn) (inputs : List Input) : Option Nat :=
   (initHeads (linksOf linkFn inputs) (srcsOf inputs)).2
 
+/-- the laws assumed of the link table (sam.MergeHeaders, property C07): reference `x` of source `i` is
+linked to a reference of the merged header with the same name.  For a single source (`links = none`)
+the merged header is the source header. -/
+def LinksOK (srcRefs : List (List Name)) (merged : List Name) (links : Option LinkFn) : Prop :=
+  ∀ (i : Nat) (names : List Name), srcRefs[i]? = some names → ∀ x : Nat, x < names.length →
+    (match links with | none => x | some l => l i x) < merged.length ∧
+    merged[(match links with | none => x | some l => l i x)]? = names[x]?
+
 theorem enumFrom_ge {α : Type} : ∀ (k : Nat) (l : List α) (p : Nat × α), p ∈ enumFrom k l → k ≤ p.1
   | _, [], _, h => by cases h
   | k, a :: as, p, h => by
@@ -80,12 +88,12 @@ theorem srcsOf_of_mem (inputs : List Input) (inp : Input) (h : inp ∈ inputs) :
   obtain ⟨i, hi, hget⟩ := List.mem_iff_getElem.1 h
   exact ⟨i, (mem_srcsOf inputs i inp.src).2 ⟨inp, by rw [List.getElem?_eq_getElem hi, hget], rfl⟩⟩
 
-/-- what a successful NewMerger holds -/
+/-- what a successful NewMerger holds (`merged = some linkFn`: MergeHeaders succeeded) -/
 theorem newMerger_ok {custom : Option Less} {linkFn : LinkFn} {inputs : List Input} {m : Merger}
-    (h : newMerger custom linkFn inputs = .ok m) :
+    (h : newMerger custom (some linkFn) inputs = .ok m) :
     m.links = linksOf linkFn inputs ∧
     m.mode = (match lessOf custom inputs with
-      | none => .cat (srcsOf inputs)
+      | none => .cat (srcsOf inputs) none
       | some less => .sorted less (initHeads (linksOf linkFn inputs) (srcsOf inputs)).1
           (initHeads (linksOf linkFn inputs) (srcsOf inputs)).2) := by
   unfold newMerger at h
@@ -95,6 +103,11 @@ theorem newMerger_ok {custom : Option Less} {linkFn : LinkFn} {inputs : List Inp
     simp only at h
     split at h
     · simp only [lessOf]
+      have hlinks : (if (i0 :: tl).length = 1 then some none else (some linkFn).map some) =
+          some (linksOf linkFn (i0 :: tl)) := by
+        unfold linksOf; split <;> rfl
+      rw [hlinks] at h
+      simp only at h
       cases hc : chooseLess i0.so custom with
       | none =>
         simp only [hc, Except.ok.injEq] at h
@@ -105,6 +118,12 @@ theorem newMerger_ok {custom : Option Less} {linkFn : LinkFn} {inputs : List Inp
         subst h
         exact ⟨rfl, rfl⟩
     · cases h
+
+/-- for a single input the answer of MergeHeaders is not consulted -/
+theorem newMerger_single (custom : Option Less) (merged merged' : Option LinkFn) (i0 : Input) :
+    newMerger custom merged [i0] = newMerger custom merged' [i0] := by
+  unfold newMerger
+  simp
 
 theorem size_sorted (links : Option LinkFn) (less : Less) (heap : List Live) (err : Option Nat) :
     (⟨links, .sorted less heap err⟩ : Merger).size = (heapPending links heap).length := by
@@ -119,7 +138,7 @@ theorem size_sorted (links : Option LinkFn) (less : Less) (heap : List Live) (er
 
 /-- reading a merger in concatenation mode to its end -/
 theorem readAll_cat (H : Heap) {custom : Option Less} {linkFn : LinkFn} {inputs : List Input} {m : Merger}
-    (hm : newMerger custom linkFn inputs = .ok m) (hl : lessOf custom inputs = none) :
+    (hm : newMerger custom (some linkFn) inputs = .ok m) (hl : lessOf custom inputs = none) :
     m.readAll H = ((catSpec (linksOf linkFn inputs) (srcsOf inputs)).1,
                     some (catSpec (linksOf linkFn inputs) (srcsOf inputs)).2) := by
   obtain ⟨h1, h2⟩ := newMerger_ok hm
@@ -133,7 +152,7 @@ theorem readAll_cat (H : Heap) {custom : Option Less} {linkFn : LinkFn} {inputs 
 
 /-- reading a merger in sorted mode to its end -/
 theorem readAll_sorted (H : Heap) {custom : Option Less} {linkFn : LinkFn} {inputs : List Input} {m : Merger}
-    {less : Less} (hm : newMerger custom linkFn inputs = .ok m) (hl : lessOf custom inputs = some less) :
+    {less : Less} (hm : newMerger custom (some linkFn) inputs = .ok m) (hl : lessOf custom inputs = some less) :
     ∃ n, (heapPending (linksOf linkFn inputs) (initHeap linkFn inputs)).length < n ∧
       m.readAll H = drainS H (linksOf linkFn inputs) less n (initHeap linkFn inputs) (initErr linkFn inputs) := by
   obtain ⟨h1, h2⟩ := newMerger_ok hm
@@ -158,40 +177,40 @@ theorem mem_delivered (links : Option LinkFn) (srcs : List (Nat × Src)) (p : Na
 /-! ### after the final error -/
 
 theorem catRead_fin_again (links : Option LinkFn) :
-    ∀ (rs rs' : List (Nat × Src)) (t : Term), catRead links rs = (.fin t, rs') → catRead links rs' = (.fin t, rs')
-  | [], rs', t, h => by
+    ∀ (rs : List (Nat × Src)) (err : Option Nat) (st : List (Nat × Src) × Option Nat) (t : Term),
+      catRead links rs err = (.fin t, st) → catRead links st.1 st.2 = (.fin t, st)
+  | [], err, st, t, h => by
     simp only [catRead, Prod.mk.injEq, Out.fin.injEq] at h
     obtain ⟨rfl, rfl⟩ := h
     rfl
-  | (id, s) :: rest, rs', t, h => by
+  | (id, s) :: rest, err, st, t, h => by
     unfold catRead at h
     cases hr : s.read with
     | got r s' => rw [hr] at h; simp at h
-    | stop tt =>
+    | stop tt s' =>
       rw [hr] at h
       cases tt with
-      | eof => exact catRead_fin_again links rest rs' t h
+      | eof => exact catRead_fin_again links rest err st t h
       | err e =>
         simp only [Prod.mk.injEq, Out.fin.injEq] at h
         obtain ⟨rfl, rfl⟩ := h
-        unfold catRead
-        rw [hr]
+        rfl
 
 /-- once `Read` has returned an error it keeps returning that error and no record -/
 theorem read_fin_again (H : Heap) (m m' : Merger) (t : Term) (h : m.read H = (.fin t, m')) :
     m'.read H = (.fin t, m') := by
   obtain ⟨links, mode⟩ := m
   cases mode with
-  | cat rs =>
+  | cat rs err =>
     unfold Merger.read at h
     simp only at h
-    cases hc : catRead links rs with
-    | mk o rs' =>
+    cases hc : catRead links rs err with
+    | mk o st =>
       rw [hc] at h
       simp only [Prod.mk.injEq] at h
       obtain ⟨rfl, rfl⟩ := h
       unfold Merger.read
-      simp only [catRead_fin_again links rs rs' t hc]
+      simp only [catRead_fin_again links rs err st t hc]
   | sorted less heap err =>
     unfold Merger.read at h
     simp only at h
@@ -208,7 +227,7 @@ theorem read_fin_again (H : Heap) (m m' : Merger) (t : Term) (h : m.read H = (.f
         simp only at h
         cases hr : x.src.read with
         | got r s' => rw [hr] at h; simp at h
-        | stop tt => rw [hr] at h; cases tt <;> simp at h
+        | stop tt _ => rw [hr] at h; cases tt <;> simp at h
     rw [hs] at h
     simp only [Prod.mk.injEq] at h
     obtain ⟨_, rfl⟩ := h
@@ -217,19 +236,21 @@ theorem read_fin_again (H : Heap) (m m' : Merger) (t : Term) (h : m.read H = (.f
 
 /-! ### when NewMerger fails -/
 
-theorem newMerger_noSource (custom : Option Less) (linkFn : LinkFn) (inputs : List Input) :
-    newMerger custom linkFn inputs = .error .noSource ↔ inputs = [] := by
+theorem newMerger_noSource (custom : Option Less) (merged : Option LinkFn) (inputs : List Input) :
+    newMerger custom merged inputs = .error .noSource ↔ inputs = [] := by
   unfold newMerger
   cases inputs with
   | nil => simp
   | cons i0 tl =>
     simp only
     split
-    · cases chooseLess i0.so custom <;> simp
+    · split
+      · simp
+      · cases chooseLess i0.so custom <;> simp
     · simp
 
-theorem newMerger_mismatch (custom : Option Less) (linkFn : LinkFn) (inputs : List Input) :
-    newMerger custom linkFn inputs = .error .sortOrderMismatch ↔
+theorem newMerger_mismatch (custom : Option Less) (merged : Option LinkFn) (inputs : List Input) :
+    newMerger custom merged inputs = .error .sortOrderMismatch ↔
       ∃ i0 tl, inputs = i0 :: tl ∧ ∃ inp, inp ∈ inputs ∧ inp.so ≠ i0.so := by
   unfold newMerger
   cases inputs with
@@ -238,18 +259,65 @@ theorem newMerger_mismatch (custom : Option Less) (linkFn : LinkFn) (inputs : Li
     simp only
     split
     · rename_i hall
-      cases chooseLess i0.so custom <;> simp
-      all_goals
-        intro inp hinp
-        have := List.all_eq_true.1 hall inp (List.mem_cons_of_mem _ hinp)
-        simpa using this
+      have hno : ¬ ∃ inp, inp ∈ i0 :: tl ∧ inp.so ≠ i0.so := by
+        rintro ⟨inp, hinp, hne⟩
+        have := List.all_eq_true.1 hall inp hinp
+        exact hne (by simpa using this)
+      constructor
+      · intro h
+        split at h
+        · cases h
+        · cases hc : chooseLess i0.so custom <;> simp [hc] at h
+      · rintro ⟨j0, tl', heq, hex⟩
+        simp only [List.cons.injEq] at heq
+        obtain ⟨rfl, rfl⟩ := heq
+        exact absurd hex hno
     · rename_i hall
-      simp only [List.cons.injEq, true_iff]
-      refine ⟨i0, tl, ⟨rfl, rfl⟩, ?_⟩
+      simp only [true_iff]
+      refine ⟨i0, tl, rfl, ?_⟩
       simp only [List.all_eq_true, beq_iff_eq] at hall
       obtain ⟨inp, hinp⟩ := Classical.not_forall.1 hall
       obtain ⟨hmem, hne⟩ := Classical.not_imp.1 hinp
       exact ⟨inp, hmem, hne⟩
+
+/-- the third failure: sam.MergeHeaders rejected the headers (two or more inputs that agree on the sort order) -/
+theorem newMerger_headerMerge (custom : Option Less) (merged : Option LinkFn) (inputs : List Input) :
+    newMerger custom merged inputs = .error .headerMerge ↔
+      merged = none ∧ 2 ≤ inputs.length ∧ ∃ i0 tl, inputs = i0 :: tl ∧ ∀ inp, inp ∈ inputs → inp.so = i0.so := by
+  unfold newMerger
+  cases inputs with
+  | nil => simp
+  | cons i0 tl =>
+    simp only
+    split
+    · rename_i hall
+      have hsame : ∀ inp, inp ∈ i0 :: tl → inp.so = i0.so := by
+        intro inp hinp
+        simpa using List.all_eq_true.1 hall inp hinp
+      by_cases h1 : (i0 :: tl).length = 1
+      · simp only [h1, if_true]
+        cases chooseLess i0.so custom <;> simp <;> intros <;> omega
+      · simp only [h1, if_false]
+        cases merged with
+        | none =>
+          simp only [Option.map_none, true_and, true_iff]
+          refine ⟨?_, i0, tl, rfl, hsame⟩
+          simp only [List.length_cons] at h1 ⊢
+          omega
+        | some l =>
+          simp only [Option.map_some]
+          cases chooseLess i0.so custom <;> simp
+    · rename_i hall
+      constructor
+      · intro h; cases h
+      rintro ⟨_, _, j0, tl', heq, hsame⟩
+      simp only [List.cons.injEq] at heq
+      obtain ⟨rfl, rfl⟩ := heq
+      exfalso
+      apply hall
+      rw [List.all_eq_true]
+      intro inp hinp
+      simpa using hsame inp hinp
 
 /-! ### sortedness can be checked on neighbours -/
 
